@@ -13,7 +13,7 @@ import (
 func init() {
 	register("C12", PropCheck{
 		Title:      "Saving session state to the filesystem store is crash-atomic",
-		Explain:    "The shape of the write protocol, which holds at every crash point because it is a property of every path: (R1) the functions reachable from fsDb.Put use only the file operations of the atomic-replace protocol - os.CreateTemp in the directory of the record, Write/Close (Sync/Chmod) on that temporary file, os.Rename of the temporary file's own name onto the record path, os.Remove of the temporary file - so the record path is never opened for writing; Write and Close precede the Rename on every path; every success path of Put passes the Rename; and nothing else in the filesystem back end renames onto or writes record names; (R2) in the engine's persister set-up the fallback Save after a failed Load is only reached on the true edge of db.IsNotFound(that error), and Persister.Load hands the store's error through unchanged; (R3) no directory-wide operation happens under Put (other sessions' records untouched).",
+		Explain:    "The shape of the write protocol, which holds at every crash point because it is a property of every path: (R1) the functions reachable from fsDb.Put use only the file operations of the atomic-replace protocol - os.CreateTemp in the directory of the record, Write/Close (Sync/Chmod) on that temporary file, os.Rename of the temporary file's own name onto the record path, os.Remove of the temporary file - so the record path is never opened for writing; Write and Close precede the Rename on every path; every success path of Put passes the Rename; and nothing else in the filesystem back end renames onto or writes record names; (R2) in the engine's persister set-up the fallback Save after a failed Load is only reached on the true edge of db.IsNotFound(that error), and Persister.Load hands the store's error through unchanged; (R3) no directory-wide operation happens under Put (other sessions' records untouched); (R5) in the atomic writer the error of every write-side call on the temporary file (Write, Sync, Close) flows, possibly through a variable it is carried in, into a nil test whose nil edge dominates the rename - an error that is overwritten before it is tested lets a short write be renamed over the intact record (added after seeded change C12-H).",
 		NotDecided: "durability under power loss (no fsync is required by the property); that the file system's rename is atomic (trusted: POSIX); crash points inside the temporary-file write are harmless by R1 and are not enumerated.",
 		Assume:     []string{"POSIX rename(2) atomically replaces the target within one directory"},
 		Run:        runC12,
@@ -24,6 +24,7 @@ func runC12(w *core.World, r *core.Report) {
 	r.Rule("R1", "fs Put path: only CreateTemp(dir of record) / Write / Close / Rename(temp name, record) / Remove(temp); order Write,Close < Rename; success passes Rename; no other renamer/writer in db/fs")
 	r.Rule("R2", "engine: fallback Save only behind db.IsNotFound(load error); Load returns the store's error unchanged")
 	r.Rule("R3", "no directory-wide file operation under Put")
+	r.Rule("R5", "atomic writer: the error of every Write, Sync and Close on the temporary file reaches a nil test that gates the rename")
 	r.Rule("R4", "the session snapshot is one record: Persister.Save performs exactly one Put, Load exactly one Get (no multi-step save)")
 
 	put := anchor(w, r, "db/fs", "(*fsDb).Put")
@@ -288,6 +289,8 @@ func runC12(w *core.World, r *core.Report) {
 		}
 		r.Check(ok, "R2", "persist.(*Persister).Load: store error handed through", ld.Pos(), "db.Get's error is returned as is", "Load wraps or replaces the store's error, so a not-found can no longer be told from a damaged record")
 	}
+	// ---- R5 -----------------------------------------------------------------------------------
+	checkWriteErrorsGateRename(w, r, "R5")
 }
 
 // addErrorEdgesOfReturns adds, for returns whose error operand is a phi, the incoming CFG edges on
